@@ -68,7 +68,9 @@ func VerifC04Pages() {
 	default:
 		r.index = nd.Choice("rd.index", 2) == 1
 	}
-	switch nd.Choice("rd.shape", 7) {
+	switch nd.Choice("rd.shape", 8) {
+	case 7: // a sort-key range condition, a filter and a Limit: pages may end on items the key condition excludes
+		r.hashVal, r.rangeOp, r.r1, r.filter, r.fv = hv, ">=", nd.StringN("rd.r1", 1), "<>", nd.StringN("rd.fv", 1)
 	case 5: // a sort-key range condition together with a Limit
 		r.hashVal, r.rangeOp, r.r1 = hv, ">=", nd.StringN("rd.r1", 1)
 	case 6:
